@@ -54,5 +54,9 @@ Next == \E a \in Arrays : \/ \E k \in {"apply", "apply_shape"}, b \in Batches : 
                           \/ \E v \in Vals : Write(a, v)
 Spec == Init /\ [][Next]_vars
 Pure == last = lastIdeal
+\* complete-graph mode: the state without the history is finite; with VIEW NoHist and no depth bound TLC visits every
+\* reachable state, checks Pure there (histories of ANY length) and EmitTrans emits one history per transition
+NoHist == <<arr, cref, csnap, cres, last, lastIdeal>>
+EmitTrans == CSVWrite("%1$s", <<ToJson(hist')>>, IOEnv.OUT_FILE)
 Emit == (Len(hist) = D) => CSVWrite("%1$s", <<ToJson(hist)>>, IOEnv.OUT_FILE)
 =======================================================================
